@@ -220,6 +220,7 @@ func dirBranches(f *ssa.Function) (zero, other *ssa.BasicBlock) {
 
 func runC18(c *Ctx) {
 	p := c.P
+	setUnitExclude()
 	// ---------------- dpipe ----------------
 	pipe := p.Func("dpipe", "", "Pipe")
 	dw := p.Func("dpipe", "conn", "Write")
@@ -236,7 +237,7 @@ func runC18(c *Ctx) {
 	for _, s := range retainedBy(p, dw, 1, nil) {
 		o.Fail(s.In.Pos(), "the caller's buffer is queued itself: %s", s.Why)
 	}
-	for _, cm := range commsOf(dw) {
+	for _, cm := range commsOfU(dw) {
 		if cm.Dir == types.SendOnly {
 			o.Site(cm.Instr.Pos(), "send %s", cm.Send.String())
 			if _, ok := rootOf(cm.Send).(*ssa.MakeSlice); !ok {
@@ -317,7 +318,7 @@ func runC18(c *Ctx) {
 
 	o = c.Obl("R3", fname(dr), "dpipe Read takes one message per data return from the read channel and returns min(len(message), len(buffer)) bytes", 2)
 	var msg ssa.Value
-	for _, cm := range commsOf(dr) {
+	for _, cm := range commsOfU(dr) {
 		if cm.Dir == types.RecvOnly && chanRole(cm.Chan) == "field dpipe.conn.rCh" && cm.Sel != nil {
 			for _, rf := range *cm.Sel.Referrers() {
 				if ex, ok := rf.(*ssa.Extract); ok && isByteSlice(ex.Type()) {
@@ -355,7 +356,7 @@ func runC18(c *Ctx) {
 			}
 		}
 		// exactly one receive per return: the receive is not in an inner loop with another receive before returning
-		if m, inf := maxEvents(entryPos(dr), isReturn, func(in ssa.Instruction) int {
+		if m, inf := maxEventsU(entryPos(dr), isReturn, func(in ssa.Instruction) int {
 			if ex, ok := in.(*ssa.Extract); ok && ssa.Value(ex) == msg {
 				return 1
 			}
@@ -430,7 +431,7 @@ func runC18(c *Ctx) {
 			st, ok := in.(*ssa.Store)
 			return ok && isFieldStore(st, "test.Bridge", dir.s) && isNilConst(st.Val)
 		}
-		if ok, bad := mustPass(posAfter(flush), isReturn, isReset); !ok {
+		if ok, bad := mustPassU(posAfter(flush), isReturn, isReset); !ok {
 			o.Fail(bad.Pos(), "after flushing %s into the queue the stack is not reset to nil: the next reorder burst delivers the old messages again", dir.s)
 		}
 		instrsOf(push, func(in ssa.Instruction) {
@@ -446,7 +447,7 @@ func runC18(c *Ctx) {
 	o = c.Obl("R7", fname(tick), "Tick offers the head of each queue to the peer's unbuffered read channel without blocking and removes it from the queue exactly on the success edge", 2)
 	for _, dir := range []struct{ q, conn string }{{"queue0to1", "conn1"}, {"queue1to0", "conn0"}} {
 		var sel *ssa.Select
-		for _, cm := range commsOf(tick) {
+		for _, cm := range commsOfU(tick) {
 			if cm.Dir == types.SendOnly && cm.Sel != nil {
 				if ia, ok := cm.Send.(*ssa.UnOp); ok {
 					if idx, ok := ia.X.(*ssa.IndexAddr); ok && isFieldLoad(idx.X, "test.Bridge", dir.q) {
@@ -472,7 +473,7 @@ func runC18(c *Ctx) {
 		}
 		cs, _ := caseBlocks(sel)
 		okBlk := cs[0]
-		for _, in := range findInstrs(tick, func(in ssa.Instruction) bool { return isFieldStore(in, "test.Bridge", dir.q) }) {
+		for _, in := range findU(tick, func(in ssa.Instruction) bool { return isFieldStore(in, "test.Bridge", dir.q) }) {
 			st := in.(*ssa.Store)
 			sl, ok := st.Val.(*ssa.Slice)
 			okS := ok && isFieldLoad(sl.X, "test.Bridge", dir.q) && sl.High == nil
@@ -488,7 +489,7 @@ func runC18(c *Ctx) {
 			}
 		}
 		if okBlk != nil {
-			if ok, bad := mustPass(blockStart(okBlk), isReturn, func(in ssa.Instruction) bool { return isFieldStore(in, "test.Bridge", dir.q) }); !ok {
+			if ok, bad := mustPassU(blockStart(okBlk), isReturn, func(in ssa.Instruction) bool { return isFieldStore(in, "test.Bridge", dir.q) }); !ok {
 				_ = bad
 				o.Fail(sel.Pos(), "a message handed to a reader stays in %s (delivered twice)", dir.q)
 			}
@@ -516,5 +517,5 @@ func isCall2(v ssa.Value, n string) bool {
 
 func msgDominates(msg ssa.Value, in ssa.Instruction) bool {
 	mi, ok := msg.(ssa.Instruction)
-	return ok && dominates(mi, in)
+	return ok && domU(mi, in)
 }
